@@ -80,6 +80,10 @@ class DiscreteTimeInterpreter(TimeInterpreter):
     def get_sampling_period(self):
         return self.sampling_period * self.U[self.sampling_period_unit]
 
+    def get_exact_sampling_period(self):
+        # the period as written (4.1 s is 4 100 000 000 ns, not the binary neighbour of 4.1 times 1e9)
+        return Fraction(str(self.sampling_period)) * self.U[self.sampling_period_unit]
+
     def get_sampling_frequency(self):
         return 1e9 * 1/self.get_sampling_period()
 
@@ -122,7 +126,7 @@ class DiscreteTimeInterpreter(TimeInterpreter):
         b = b * self.ast.U[b_unit]
         e = e * self.ast.U[e_unit]
 
-        sp = Fraction(self.sampling_period * self.ast.U[self.sampling_period_unit])
+        sp = self.get_exact_sampling_period()
         b = b / sp
         e = e / sp
 
